@@ -114,7 +114,7 @@ CHECKS = {
         level="model_checking",
         engine="mc-aggregator",
         technique="explicit-state exploration by replay of the real aggregator (depth-bounded BFS with canonical-state dedup from 3 prepared states, deviation balls around nominal schedules, one-preemption operation interleavings at cfg-guarded hook points)",
-        text="The real aggregator (DependenciesBuilder container, AggregatorRuntime state machine, certifier, signer registerer, warp /register-signatures route, file-backed SQLite) is driven by an event alphabet (tick, epoch +1/+2, new immutable, registrations, honest/late/early-buffered/wrong-message/wrong-label signatures, expiry, restart). All histories up to a depth from three prepared states, all histories within 1 (thorough: also 2 on a core schedule) edit of nominal multi-epoch schedules, and every (hook-point occurrence x other operation) interleaving are replayed on a fresh node; after every event the database is checked: every stored certificate verifies to genesis under mithril-common's client verifier, was sealed on a quorum of valid signatures of the signers the reference offset rule registers for that epoch, carries that epoch's aggregate key and parameters, links to the first certificate of its epoch / of the preceding epoch, no entity is certified twice, and no certificate is sealed for an open message that had already expired when the sealing cycle began. Every history is followed by closing rounds (signers resubmit, the machine keeps cycling) with the invariants evaluated after every event. A second world signs the Mithril and Cardano stake distributions (the entity whose beacon epoch differs from the epoch it is signed in) and is explored in the 1-deviation ball of its nominal schedule.",
+        text="The real aggregator (DependenciesBuilder container, AggregatorRuntime state machine, certifier, signer registerer, warp /register-signatures route, file-backed SQLite) is driven by an event alphabet (tick, epoch +1/+2, new immutable, registrations, honest/late/early-buffered/wrong-message/wrong-label signatures, expiry, restart). All histories up to a depth from three prepared states, all histories within 1 (thorough: also 2 on a core schedule) edit of nominal multi-epoch schedules, and every (hook-point occurrence x other operation) interleaving are replayed on a fresh node; after every event the database is checked: every stored certificate verifies to genesis under mithril-common's client verifier, was sealed on a quorum of valid signatures of the signers the reference offset rule registers for that epoch, carries that epoch's aggregate key and parameters, links to the first certificate of its epoch / of the preceding epoch, no entity is certified twice, and no certificate is sealed for an open message that had already expired when the sealing cycle began. Honest signers sign with the signer lists the aggregator announces (as real signer nodes do) and the stakes of their own chain view; the invariants use the registrations the harness saw accepted (reference offset rule). Every history is followed by closing rounds (signers resubmit, the machine keeps cycling) with the invariants evaluated after every event. A family of 64 (thorough: 256) histories varies who registers in each epoch (all / a subset, with or without a late registration naming the closed round). A second world signs the Mithril and Cardano stake distributions (the entity whose beacon epoch differs from the epoch it is signed in) and is explored in the 1-deviation ball of its nominal schedule.",
         note="Cardano node, digester, uploader are the repository's test doubles; keys from deterministic fixtures; 3 signers whose stakes differ in every epoch (shares constant); MithrilStakeDistribution + CardanoDatabase entity types (second world: MithrilStakeDistribution + CardanoStakeDistribution; third: default configuration with the operator restarting the node with other protocol parameters, checked against a write-once reference model of the epoch settings); interleavings only at declared hook points, whole operations, one preemption; follower mode not explored. STM signature validity itself is C01's subject.",
         design="§4 C14, §5",
     ),
@@ -122,7 +122,7 @@ CHECKS = {
         level="fault_enumeration",
         engine="mc-aggregator",
         technique="exhaustive crash-cut enumeration on the real aggregator: every occurrence of every persistence hook point along a schedule armed once (thorough: 1-deviation schedules and repeated crashes), node dropped and rebuilt on the same SQLite files",
-        text="A recording run lists every occurrence of the eight persistence points (single-signature insert, certificate insert, open-message update, end of create_certificate, artifact compute/store/after-store, buffered hand-over). Each is armed once as a crash: the operation parks there, the whole node is dropped and rebuilt on the same database, then two closing environments run, each on its own copy of the cut: signers that resubmit every cycle, and honest signers that send each signature until it was acknowledged once (acting on the epoch the node serves); a new immutable and a new epoch follow. Every cut is run in two worlds: MithrilStakeDistribution + CardanoDatabase, and the default configuration (MithrilStakeDistribution only, where a lost round is an epoch gap). After every step: every certificate verifies with its chain, at most one artifact per entity, every artifact references a stored certificate of exactly that entity; before the closing environment's epoch change the round of the later immutable beacon of the crash epoch, and at the end the rounds of the next epoch, must be certified with artifacts. Thorough adds the 1-deviation ball of the schedule and second crashes after every first one.",
+        text="A recording run lists every occurrence of the eight persistence points (single-signature insert, certificate insert, open-message update, end of create_certificate, artifact compute/store/after-store, buffered hand-over). Each is armed once as a crash: the operation parks there, the whole node is dropped and rebuilt on the same database, then two closing environments run (each starts with two cycles before any signer sends again), each on its own copy of the cut: signers that resubmit every cycle, and honest signers that send each signature until it was acknowledged once (acting on the epoch the node serves); a new immutable and a new epoch follow. Every cut is run in two worlds: MithrilStakeDistribution + CardanoDatabase, and the default configuration (MithrilStakeDistribution only, where a lost round is an epoch gap). After every step: every certificate verifies with its chain, at most one artifact per entity, every artifact references a stored certificate of exactly that entity; the restarted node must not panic by itself while resuming (a panic is handled as a further crash and restart); before the closing environment's epoch change the round of the later immutable beacon of the crash epoch, and at the end the rounds of the next epoch, must be certified with artifacts. Thorough adds the 1-deviation ball of the schedule and second crashes after every first one.",
         note="A crash is the loss of everything after an await point between persistence statements; torn pages / power loss are not modelled. An entity certified twice after a crash between certificate insert and open-message update is reported as an observation (C15 does not forbid it).",
         design="§4 C15, §5",
     ),
